@@ -28,6 +28,8 @@ struct World {
     far_known: Keypair,
     far_mode_known: bool,
     forger: Keypair,
+    /// known peers at the edge of the K closest: the 19th closest (last one inside), the 20th and 21st (first ones outside)
+    edge: (Keypair, Keypair, Keypair),
     key_ids: HashMap<String, usize>,
     op_ids: HashMap<String, usize>,
     pad_contents: HashMap<String, u64>,
@@ -63,14 +65,25 @@ impl World {
         for (i, (k, _)) in cands.iter().enumerate() {
             n.add_peer(&PeerId::from(k.public()), 40000 + i as u16);
         }
-        let near: Vec<Keypair> = cands[..3].iter().map(|x| x.0.clone()).collect();
+        assert!(keccak_selftest(), "the driver's own Keccak-256 fails its self-test");
+        let near: Vec<Keypair> = cands[..5].iter().map(|x| x.0.clone()).collect();
         let far_known = cands[29].0.clone();
         let closest = n.driver.verif_closest_k_value_local_peers();
         assert!(near.iter().all(|k| closest.contains(&PeerId::from(k.public()))), "near payees must be among the K closest");
         assert!(!closest.contains(&PeerId::from(far_known.public())), "the known-far payee must not be among the K closest");
+        // K_VALUE = 20 INCLUDING the node itself (driver.rs get_closest_k_value_local_peers: once(self).chain(closest).take(K)):
+        // the 19th closest known peer is the last payee that still counts as close, the 20th is the first that does not
+        assert!(closest.len() == 20 && closest[0] == n.peer, "K closest = self + 19 peers");
+        let by_peer = |p: &PeerId| cands.iter().find(|c| PeerId::from(c.0.public()) == *p).map(|c| c.0.clone());
+        let in19 = by_peer(&closest[19]).expect("19th closest is one of the candidates");
+        let mut outside = cands.iter().filter(|c| !closest.contains(&PeerId::from(c.0.public()))).map(|c| c.0.clone());
+        let out20 = outside.next().expect("20th");
+        let out21 = outside.next().expect("21st");
+        assert!(PeerId::from(cands[18].0.public()) == closest[19] && PeerId::from(cands[19].0.public()) == PeerId::from(out20.public()),
+                "the driver's own distance order agrees with the routing table at the K boundary");
         let far = keypair(&mut rng);
         let forger = keypair(&mut rng);
-        World { n, stub, near, far, far_known, far_mode_known: false, forger, key_ids: HashMap::new(), op_ids: HashMap::new(), pad_contents: HashMap::new(), run: 0 }
+        World { n, stub, near, far, far_known, far_mode_known: false, forger, edge: (in19, out20, out21), key_ids: HashMap::new(), op_ids: HashMap::new(), pad_contents: HashMap::new(), run: 0 }
     }
     fn kid(&mut self, key: &RecordKey) -> usize {
         let h = hex::encode(key.as_ref());
@@ -132,11 +145,17 @@ fn abs(d: &Value) -> Value {
 fn content_ok(d: &Value) -> bool {
     match d["kind"].as_str().unwrap_or("none") {
         "pad" => d["valid"] == json!(true) && d["ownerSame"] == json!(true),
-        "txs" => d["txs"].as_array().map(|a| a.iter().all(|t| t["valid"] == json!(true) && t["ownerSame"] == json!(true))).unwrap_or(true),
-        "reg" => d["verify"] == json!(true) && d["ops"].as_array().map(|a| a.iter().all(|o| o.as_u64().unwrap_or(999) < 100)).unwrap_or(true),
+        // ... and no entry is stored twice (C07 "independent of ... duplication"): transaction ids / operation ids pairwise distinct
+        "txs" => d["txs"].as_array().map(|a| a.iter().all(|t| t["valid"] == json!(true) && t["ownerSame"] == json!(true)) && distinct(a.iter().map(|t| t["id"].to_string()))).unwrap_or(true),
+        "reg" => d["verify"] == json!(true) && d["ops"].as_array().map(|a| a.iter().all(|o| o.as_u64().unwrap_or(999) < 100) && distinct(a.iter().map(|o| o.to_string()))).unwrap_or(true),
         "unparsable" => false,
         _ => true,
     }
+}
+fn distinct<I: Iterator<Item = String>>(it: I) -> bool {
+    let v: Vec<String> = it.collect();
+    let s: std::collections::BTreeSet<&String> = v.iter().collect();
+    s.len() == v.len()
 }
 /// what is stored under key id `k` derives to `k`
 fn derived_ok(d: &Value, k: usize) -> bool {
@@ -152,6 +171,11 @@ struct Built {
     record: Record,
     derived: RecordKey, // the key the content determines (computed here, independently of the node)
     size: usize,
+    /// what the contract must be asked (one triple per quote of the proof, in order), computed by the driver
+    exp: Vec<(String, String, String)>,
+    /// index of this node's quote in the proof
+    self_at: Option<usize>,
+    payx: Option<PayX>,
 }
 
 /// Build the real record for a delivery spec.
@@ -169,11 +193,18 @@ fn build(w: &mut World, d: &Value) -> Built {
         if let Some(a) = dv["txs"].as_array_mut() { for t in a.iter_mut() { t["owner"] = json!("other"); } }
     }
     let d = &dv;
-    let pay = if d["pay"].is_object() { Some(Pay::from_json(&d["pay"])) } else { None };
+    let pay = if d["pay"].is_object() { Some(PayX::from_json(&d["pay"])) } else { None };
+    let all_ok = PayX::from_json(&json!({}));
+    let proof_info: std::cell::RefCell<(Vec<(String, String, String)>, Option<usize>)> = std::cell::RefCell::new((vec![], None));
     let me = w.n.kp.clone();
     // a payee that is not close: unknown to the node (even slots) or known but beyond its K closest peers (odd slots)
     let known_far = w.far_mode_known;
-    let mk_proof = |w: &World, content: XorName, p: Pay| proof(&me, &w.near, if known_far { &w.far_known } else { &w.far }, &w.forger, content, p);
+    let mk_proof = |w: &World, content: XorName, p: PayX| {
+        let payees = Payees { me: &me, near: &w.near, far: if known_far { &w.far_known } else { &w.far }, forger: &w.forger, edge: (&w.edge.0, &w.edge.1, &w.edge.2) };
+        let (proof, self_at) = proof_x(&payees, content, &p);
+        *proof_info.borrow_mut() = (proof.peer_quotes.iter().map(|(_, q)| expected_triple(q)).collect(), self_at);
+        proof
+    };
     let (value, derived): (Vec<u8>, RecordKey) = match kind {
         "Chunk" | "ChunkWithPayment" => {
             // "collide": the chunk whose bytes are the slot owner's public key shares its address with the owner's
@@ -182,7 +213,7 @@ fn build(w: &mut World, d: &Value) -> Built {
                     else { chunk_of(slot * 10 + uz(&d["variant"])) };
             let derived = NetworkAddress::from_chunk_address(*c.address()).to_record_key();
             let v = if kind == "Chunk" { ser(&c, RecordKind::Chunk) } else {
-                let p = pay.unwrap_or(Pay::all_ok());
+                let p = pay.clone().unwrap_or(all_ok.clone());
                 ser(&(mk_proof(w, *c.name(), p), c.clone()), RecordKind::ChunkWithPayment)
             };
             (v, derived)
@@ -192,11 +223,18 @@ fn build(w: &mut World, d: &Value) -> Built {
             let sig = st(&d["sig"], "ok");
             let signer = if sig == "bad" { &stranger } else { pad_owner };
             let pad = scratchpad(pad_owner, signer, uz(&d["c"]).max(1), uz(&d["content"]), sig == "bumped");
+            // "none": the signature removed; "swapped": other data under the (valid) signature made for the original data
+            let pad = match sig {
+                "none" => pad_edit(&pad, |m| m.signature = None),
+                "swapped" => { let other = scratchpad(pad_owner, pad_owner, uz(&d["c"]).max(1), uz(&d["content"]) + 7000, false);
+                               pad_edit(&pad, |m| m.encrypted_data = other.encrypted_data().clone()) }
+                _ => pad,
+            };
             w.pad_contents.insert(hex::encode(pad.encrypted_data_hash().0), uz(&d["content"]));
             // the slot's address is that of the slot owner: a pad of another owner is a foreign record
             let derived = NetworkAddress::ScratchpadAddress(*pad.address()).to_record_key();
             let v = if kind == "Scratchpad" { ser(&pad, RecordKind::Scratchpad) } else {
-                let p = pay.unwrap_or(Pay::all_ok());
+                let p = pay.clone().unwrap_or(all_ok.clone());
                 ser(&(mk_proof(w, pad.address().xorname(), p), pad.clone()), RecordKind::ScratchpadWithPayment)
             };
             (v, derived)
@@ -209,12 +247,23 @@ fn build(w: &mut World, d: &Value) -> Built {
                 let o = if st(&t["owner"], "same") == "same" { &owner } else { &stranger };
                 let s = if st(&t["sig"], "ok") == "ok" { o } else { &stranger };
                 let s = if st(&t["sig"], "ok") == "ok" { s } else { if std::ptr::eq(o, &stranger) { &owner } else { &stranger } };
-                transaction(o, s, uz(&t["id"]))
+                let tx = transaction(o, s, uz(&t["id"]));
+                // "rich": validly signed, with parents and outputs; "tamper*": a field changed after the owner signed
+                let pk = |i: u64| bls_key(900_000 + i).public_key();
+                match st(&t["variant"], "plain") {
+                    "rich" => Transaction::new(o.public_key(), vec![pk(1), pk(2)], tx.content, vec![(pk(3), [7u8; 32]), (pk(4), [8u8; 32])], s),
+                    "tamperOutputs" => { let mut x = Transaction::new(o.public_key(), vec![pk(1)], tx.content, vec![(pk(3), [7u8; 32])], s); x.outputs[0].1 = [9u8; 32]; x }
+                    "tamperOutputsAdd" => { let mut x = tx; x.outputs.push((pk(3), [7u8; 32])); x }
+                    "tamperParents" => { let mut x = Transaction::new(o.public_key(), vec![pk(1), pk(2)], tx.content, vec![], s); x.parents.swap(0, 1); x }
+                    "tamperParentsAdd" => { let mut x = tx; x.parents.push(pk(1)); x }
+                    "tamperContent" => { let mut x = tx; x.content[31] ^= 1; x }
+                    _ => tx,
+                }
             }).collect();
             let addr_tx = transaction(&owner, &owner, 0);
             let derived = NetworkAddress::from_transaction_address(addr_tx.address()).to_record_key();
             let v = if kind == "Transaction" { ser(&txs, RecordKind::Transaction) } else {
-                let p = pay.unwrap_or(Pay::all_ok());
+                let p = pay.clone().unwrap_or(all_ok.clone());
                 let first = txs.first().cloned().unwrap_or(addr_tx.clone());
                 let dk = NetworkAddress::from_transaction_address(first.address());
                 ser(&(mk_proof(w, dk.as_xorname().unwrap_or_default(), p), first), RecordKind::TransactionWithPayment)
@@ -237,7 +286,7 @@ fn build(w: &mut World, d: &Value) -> Built {
             let reg: SignedRegister = register_with(&base, ops);
             let derived = NetworkAddress::from_register_address(*reg.address()).to_record_key();
             let v = if kind == "Register" { ser(&reg, RecordKind::Register) } else {
-                let p = pay.unwrap_or(Pay::all_ok());
+                let p = pay.clone().unwrap_or(all_ok.clone());
                 ser(&(mk_proof(w, reg.address().xorname(), p), reg.clone()), RecordKind::RegisterWithPayment)
             };
             (v, derived)
@@ -250,6 +299,9 @@ fn build(w: &mut World, d: &Value) -> Built {
         "header1" => value.truncate(1),
         "unknownkind" => { if value.len() > 1 { value[1] = 0x20; } }
         "oversize" => value.extend(std::iter::repeat(0u8).take(5 * 1024 * 1024)),
+        // the store's own limit, both sides (record_store.rs put: `len >= max_value_bytes` is refused; max_value_bytes = MAX_PACKET_SIZE)
+        "maxm1" => value.resize(ant_networking::MAX_PACKET_SIZE - 1, 0),
+        "max" => value.resize(ant_networking::MAX_PACKET_SIZE, 0),
         "garbage" => { let n = value.len(); for b in value.iter_mut().skip(3) { *b = b.wrapping_mul(31).wrapping_add(7); } let _ = n; }
         _ => {}
     }
@@ -263,7 +315,50 @@ fn build(w: &mut World, d: &Value) -> Built {
         }
     } else { other_key(slot * 10 + uz(&d["variant"])) };
     let size = value.len();
-    Built { record: record(key, value), derived, size }
+    let (exp, self_at) = proof_info.into_inner();
+    Built { record: record(key, value), derived, size, exp, self_at, payx: pay }
+}
+
+/// edit a scratchpad's private fields through its serialised form
+#[derive(serde::Serialize, serde::Deserialize)]
+struct PadMirror {
+    address: ant_protocol::storage::ScratchpadAddress,
+    data_encoding: u64,
+    encrypted_data: bytes::Bytes,
+    counter: u64,
+    signature: Option<bls::Signature>,
+}
+fn pad_edit<F: FnOnce(&mut PadMirror)>(pad: &Scratchpad, f: F) -> Scratchpad {
+    let mut m: PadMirror = rmp_serde::from_slice(&rmp_serde::to_vec_named(pad).expect("pad ser")).expect("pad mirror");
+    f(&mut m);
+    rmp_serde::from_slice(&rmp_serde::to_vec_named(&m).expect("mirror ser")).expect("pad from mirror")
+}
+
+/// Tell the contract stub how to answer for this delivery (C03 "the payment is confirmed by the payment contract").
+fn prescribe(stub: &EvmStub, p: &PayX, n: usize, self_at: Option<usize>) {
+    let amount = |i: usize| 10 + i as u64;
+    let all = |v: bool| (0..n).map(|i| (v, if v { amount(i) } else { 0 })).collect::<Vec<_>>();
+    let mut verdicts = all(true);
+    let mut fail = None;
+    match p.mode.as_str() {
+        "ok" => {}
+        "allBad" => verdicts = all(false),
+        "ownBadOnly" => { if let Some(i) = self_at { verdicts[i] = (false, 0); } }
+        // the last of the first three entries that is not this node's
+        "otherBadOnly" => { if let Some(i) = (0..n.min(3)).rev().find(|i| Some(*i) != self_at) { verdicts[i] = (false, 0); } }
+        "ownAmountZero" => { if let Some(i) = self_at { verdicts[i] = (true, 0); } }
+        f => fail = Some(f.to_string()),
+    }
+    stub.prescribe(Some(verdicts), None, fail);
+}
+
+/// one short digest per (quote hash, metrics words, rewards address) triple: the trace compares digests, the full
+/// triples are logged only when expectation and calldata differ
+fn triples_json(v: &[(String, String, String)]) -> Value {
+    json!(v.iter().map(|(h, m, r)| hex::encode(&sha256(&format!("{h}|{m}|{r}"))[..10])).collect::<Vec<_>>())
+}
+fn triples_full(v: &[(String, String, String)]) -> Value {
+    json!(v.iter().map(|(h, m, r)| json!({"h": h, "m": m, "r": r})).collect::<Vec<_>>())
 }
 
 fn err_name(e: &str) -> String {
@@ -280,9 +375,14 @@ async fn deliver(w: &mut World, t: &mut Trace, d: &Value, src: &str) {
     let listed_before: Vec<usize> = { let ks = w.n.all_listed(); let mut v: Vec<usize> = ks.iter().map(|k| w.kid(k)).collect(); v.sort(); v };
     let calls0 = w.stub.calls();
     if let Some(p) = d.get("pay").filter(|p| p.is_object()) { w.stub.set_valid(p["chain"].as_bool().unwrap_or(true)); }
+    let payx = b.payx.clone().unwrap_or(PayX::from_json(&json!({})));
+    prescribe(&w.stub, &payx, b.exp.len(), b.self_at);
+    let _ = w.stub.take_received();
     let path = st(&d["path"], "client");
     let node = w.n.node.clone();
     let mut unverified = 0;
+    // every UnverifiedRecord event of this delivery carries exactly the presented record (key and bytes)
+    let mut unv_same = true;
     let res: String = match path {
         "client" => match vtrace::guarded_async(run_serving(&mut w.n, node.validate_and_store_record(b.record.clone()))).await {
             Ok(Ok(())) => "Ok".into(), Ok(Err(e)) => err_name(&e), Err(_) => "Panic".into() },
@@ -294,7 +394,24 @@ async fn deliver(w: &mut World, t: &mut Trace, d: &Value, src: &str) {
             let r = { let rec = b.record.clone(); match w.n.driver.verif_node_store_mut() { Some(s) => vtrace::guarded(|| s.put(rec)), None => Ok(Ok(())) } };
             settle(&mut w.n).await;
             unverified = w.n.unverified.len() - before;
+            unv_same = w.n.unverified[before..].iter().all(|r| r.key == b.record.key && r.value == b.record.value);
             match r { Ok(Ok(())) => "Ok".into(), Ok(Err(e)) => format!("Err:{e:?}"), Err(_) => "Panic".into() }
+        }
+        "kadput+validate" => {
+            // the whole way in from the network: RecordStore::put, then the record of each UnverifiedRecord event it emits
+            // goes through validate_and_store_record (what the node's event loop does with that event)
+            let before = w.n.unverified.len();
+            let r = { let rec = b.record.clone(); match w.n.driver.verif_node_store_mut() { Some(s) => vtrace::guarded(|| s.put(rec)), None => Ok(Ok(())) } };
+            settle(&mut w.n).await;
+            unverified = w.n.unverified.len() - before;
+            let evs: Vec<Record> = w.n.unverified[before..].to_vec();
+            unv_same = evs.iter().all(|r| r.key == b.record.key && r.value == b.record.value);
+            let mut out: String = match r { Ok(Ok(())) => "NotForwarded".into(), Ok(Err(e)) => format!("Err:{e:?}"), Err(_) => "Panic".into() };
+            for ev in evs {
+                out = match vtrace::guarded_async(run_serving(&mut w.n, node.validate_and_store_record(ev))).await {
+                    Ok(Ok(())) => "Ok".into(), Ok(Err(e)) => err_name(&e), Err(_) => "Panic".into() };
+            }
+            out
         }
         other => panic!("unknown path {other}"),
     };
@@ -305,10 +422,14 @@ async fn deliver(w: &mut World, t: &mut Trace, d: &Value, src: &str) {
     let (pk, dk) = (w.kid(&presented), w.kid(&b.derived));
     let gained: Vec<usize> = listed_after.iter().cloned().filter(|k| !listed_before.contains(k)).collect();
     let lost: Vec<usize> = listed_before.iter().cloned().filter(|k| !listed_after.contains(k)).collect();
-    let spec = json!({"path": d["path"], "kind": d["kind"], "keyOk": st(&d["key"], "derived") == "derived", "parse": st(&d["parse"], "ok"),
-        "pay": if d["pay"].is_object() { d["pay"].clone() } else { json!({"sigs": true, "self": true, "close": true, "fresh": true, "chain": true, "addr": true, "none": true}) },
+    let (got_calls, undecodable) = w.stub.take_received();
+    w.stub.prescribe(None, None, None);
+    let via_kad = path == "kadput+validate";
+    let spec = json!({"path": if via_kad { json!("client") } else { d["path"].clone() }, "kind": d["kind"], "keyOk": st(&d["key"], "derived") == "derived", "parse": st(&d["parse"], "ok"),
+        "pay": {"sigs": payx.base.sigs, "self": payx.base.self_payee, "close": payx.base.close, "fresh": payx.base.fresh, "chain": payx.base.chain, "addr": payx.base.addr,
+                "mode": payx.mode, "pos": payx.pos, "selfIdx": payx.self_idx, "shape": payx.shape, "edge": payx.edge, "none": !d["pay"].is_object()},
         "pad": {"c": uz(&d["c"]).max(1), "sig": st(&d["sig"], "ok"), "content": uz(&d["content"])},
-        "txs": d["txs"].as_array().map(|a| a.iter().map(|t| json!({"id": uz(&t["id"]), "ok": st(&t["sig"], "ok") == "ok" && st(&t["owner"], "same") == "same"})).collect::<Vec<_>>()).unwrap_or_default(),
+        "txs": d["txs"].as_array().map(|a| a.iter().map(|t| json!({"id": uz(&t["id"]), "ok": st(&t["sig"], "ok") == "ok" && st(&t["owner"], "same") == "same" && !st(&t["variant"], "plain").starts_with("tamper")})).collect::<Vec<_>>()).unwrap_or_default(),
         "ops": d["ops"].as_array().map(|a| a.iter().map(|o| json!({"id": uz(&o["id"]), "ok": st(&o["sig"], "ok") == "ok"})).collect::<Vec<_>>()).unwrap_or_default()});
     let mut spec = spec;
     spec["heldIdx"] = before_d["listed"].clone();
@@ -316,7 +437,9 @@ async fn deliver(w: &mut World, t: &mut Trace, d: &Value, src: &str) {
         "gained":gained,"lost":lost,"derivedOK":derived_ok(&after_d, dk) && derived_ok(&after_p, pk),"contentOK":content_ok(&after_d) && content_ok(&after_p),
         "spec":d,"res":res,"presentedKey":pk,"derivedKey":dk,"size":b.size,
         "beforeP":before_p,"beforeD":before_d,"afterP":after_p,"afterD":after_d,
-        "listedBefore":listed_before,"listedAfter":listed_after,"contractCalls":w.stub.calls()-calls0,"unverified":unverified,"src":src}));
+        "listedBefore":listed_before,"listedAfter":listed_after,"contractCalls":w.stub.calls()-calls0,"unverified":unverified,"unvSame":unv_same,"viaKad":via_kad,
+        "exp":triples_json(&b.exp),"calls":got_calls.iter().map(|c| triples_json(c)).collect::<Vec<_>>(),"undecodable":undecodable,
+        "callsFull": if got_calls.iter().all(|c| *c == b.exp) { json!(null) } else { json!({"exp": triples_full(&b.exp), "calls": got_calls.iter().map(|c| triples_full(c)).collect::<Vec<_>>()}) },"selfAt":b.self_at.map(|i| i as i64).unwrap_or(-1),"src":src}));
 }
 
 /// Two replicated deliveries for one address processed concurrently, in the prescribed interleaving.
